@@ -16,6 +16,7 @@ func init() {
 		Info: core.Info{
 			Explanation: "Decides structural necessary conditions on Dial and its literals; timing, real scheduling order and 'first success wins' races are NOT decided (schedule properties need virtual-time execution or a model): " +
 				"(K1) goroutine census: exactly the worker pool, the closer (WaitGroup.Wait then close of the error channel) and one feeder; " +
+				"(K0) a return of Dial without a connection carries an error that cannot be nil (made on the spot, tested, the context's after Done, or errors.Join of a list known non-empty); " +
 				"(K2) channel discipline: every blocking send/receive/select in Dial's literals has a <-ctx.Done() alternative on the Dial-scoped cancellable context, except the feeder->worker rendezvous (workers range over the target channel; the feeder closes it on every way out, so workers and the closer terminate) and the closer's Wait; all four channels are unbuffered; anything Dial defers that waits for its goroutines is registered before the deferred cancel (so the cancel runs first); " +
 				"(K3) the Dial-scoped context is WithCancel of the caller's and its cancel is deferred; each attempt runs under WithTimeout(that context, Timeout or 30 s) created inside the per-target loop and cancelled after the attempt in the same iteration; " +
 				"(K4) ownership: on dialOne's success edge the connection goes to sendConn, whose Done branch closes it (if it is a Closer) and whose other branch hands it to the unbuffered connection channel, i.e. directly to the collector, which returns it; " +
@@ -96,6 +97,106 @@ func c18Rules(p *core.Prog, r *core.Run) {
 	}
 	for i, w := range waits {
 		r.Check("C18.K2", fmt.Sprintf("defer-wait#%d", i), cancelDefer != nil && core.Before(w, cancelDefer), p.InstrPos(w), "a deferred wait for the goroutines is registered before the deferred cancel, so the cancel runs first and releases workers blocked in a send")
+	}
+
+	// --- K0: Dial returns a connection or an error, never neither: a return
+	// that carries no connection carries an error that cannot be nil - one made
+	// on the spot, one that was tested, the context's after Done, or the join of
+	// a list known to be non-empty (errors.Join of nothing is nil)
+	for i, ret := range core.Returns(dial) {
+		if len(ret.Results) != 2 {
+			continue
+		}
+		c := p.X(ret.Results[0])
+		noConn := false
+		for _, a := range c.Alts() {
+			if a.Op == "const" {
+				noConn = true
+			}
+		}
+		if !noConn {
+			continue
+		}
+		okErr := true
+		why := ""
+		// each way the error value gets to the return, with what is known on that way
+		type errWay struct {
+			e  *core.Expr
+			fs []core.Fact
+		}
+		var ways []errWay
+		var expand func(v ssa.Value, fs []core.Fact, depth int)
+		expand = func(v ssa.Value, fs []core.Fact, depth int) {
+			// a merged value that was itself tested is non-nil whichever way it came
+			for _, f := range fs {
+				if f.Op == "!=" && f.R != nil && f.R.Name == "nil" && f.G.Cond != nil {
+					if bo, ok := f.G.Cond.(*ssa.BinOp); ok && (bo.X == v || bo.Y == v) {
+						return
+					}
+				}
+			}
+			if ph, ok := v.(*ssa.Phi); ok && depth < 4 {
+				for k, ed := range ph.Edges {
+					expand(ed, append(append([]core.Fact{}, fs...), p.EdgeFacts(ph.Block().Preds[k], ph.Block())...), depth+1)
+				}
+				return
+			}
+			for _, a := range p.X(v).Alts() {
+				ways = append(ways, errWay{a, fs})
+			}
+		}
+		ev := retErr(ret)
+		if u, isLoad := ev.(*ssa.UnOp); isLoad && u.Op == token.MUL {
+			// functions with defers return through result cells: the value stored last
+			if cell, isCell := u.X.(*ssa.Alloc); isCell {
+				for _, in := range ret.Block().Instrs {
+					if st, isSt := in.(*ssa.Store); isSt && st.Addr == ssa.Value(cell) {
+						ev = st.Val
+					}
+				}
+			}
+		}
+		expand(ev, p.Facts(ret.Block()), 0)
+		for _, w := range ways {
+			e, fs := w.e, w.fs
+			switch {
+			case e.Op == "call" && (e.Name == "errors.New" || e.Name == "fmt.Errorf"):
+			case e.Op == "call" && e.Name == "(context.Context).Err":
+				// non-nil once Done was observed
+				done := false
+				for _, f := range fs {
+					if sl, ok := f.L.Select(); ok && f.Op == "==" {
+						if k, ok := f.R.ConstInt(); ok && int(k) < len(sl.States) && isDone(sl.States[k].Chan) {
+							done = true
+						}
+					}
+				}
+				if !done {
+					okErr, why = false, "ctx.Err() without Done observed"
+				}
+			case e.Op == "call" && e.Name == "errors.Join":
+				nonEmpty := false
+				for _, f := range fs {
+					if (f.Op == ">" || f.Op == "!=") && f.R != nil && f.R.Name == "0" && f.L.Op == "call" && f.L.Name == "len" {
+						nonEmpty = true
+					}
+				}
+				if !nonEmpty {
+					okErr, why = false, "errors.Join of a list that may be empty is nil"
+				}
+			default:
+				tested := false
+				for _, f := range fs {
+					if f.Op == "!=" && f.R != nil && f.R.Name == "nil" && f.L.String() == e.String() {
+						tested = true
+					}
+				}
+				if !tested {
+					okErr, why = false, "error of unknown nilness: "+short(e)
+				}
+			}
+		}
+		r.Check("C18.K0", fmt.Sprintf("Dial:return#%d", i), okErr, p.InstrPos(ret), "a return of Dial without a connection carries an error that cannot be nil %s", why)
 	}
 
 	// --- K1
@@ -259,7 +360,15 @@ func c18Rules(p *core.Prog, r *core.Run) {
 	// --- K4
 	var sendConn *ssa.Function
 	for _, s := range allCalls(p, []*ssa.Function{m.worker}) {
-		if s.X.Fn != nil && s.X.Fn.Parent() == dial && len(s.X.Args) == 1 && s.X.Args[0].Op == "ext" && s.X.Args[0].Name == "#0" && sameFn(s.X.Args[0].Args[0].Fn, m.dialOne) {
+		if len(s.X.Args) != 1 {
+			continue
+		}
+		// (a merge all of whose ways carry the same value is that value)
+		arg := s.X.Args[0]
+		if alts := arg.Alts(); len(alts) == 1 {
+			arg = alts[0]
+		}
+		if s.X.Fn != nil && s.X.Fn.Parent() == dial && arg.Op == "ext" && arg.Name == "#0" && sameFn(arg.Args[0].Fn, m.dialOne) {
 			sendConn = s.X.Fn
 			okEdge := false
 			for _, f := range p.Facts(s.Block()) {
@@ -390,6 +499,34 @@ func c18Rules(p *core.Prog, r *core.Run) {
 							}
 						}
 						isFirst = nInit == 1 && nFlip == 1 && nOther == 0 && len(calls) == 0
+					}
+				}
+				// the same with a counter: "no target handed out yet" is count == 0,
+				// the count starts at 0 outside the per-target code and goes up by
+				// one on the way to every send
+				if bo, okb := fs[0].G.Cond.(*ssa.BinOp); okb && !isFirst && fs[0].R != nil && fs[0].R.Name == "0" && (fs[0].Op == "==" || fs[0].Op == "<=") {
+					if cell, okc := p.IsCellLoad(bo.X); okc {
+						stores, calls := p.CellDefs(cell)
+						nInit, nInc, nOther := 0, 0, 0
+						for _, st := range stores {
+							if c, isC := st.Val.(*ssa.Const); isC && c.Value != nil && c.Value.ExactString() == "0" && st.Parent() != s.Parent() {
+								nInit++
+								continue
+							}
+							inc, isInc := st.Val.(*ssa.BinOp)
+							if isInc && inc.Op == token.ADD {
+								if ld, isLd := inc.X.(*ssa.UnOp); isLd && ld.Op == token.MUL {
+									if c2, ok2 := p.IsCellLoad(ld); ok2 && c2 == cell {
+										if k, isK := inc.Y.(*ssa.Const); isK && k.Value != nil && k.Value.ExactString() == "1" && st.Parent() == s.Parent() && (st.Block() == s.Block() || st.Block().Dominates(s.Block())) {
+											nInc++
+											continue
+										}
+									}
+								}
+							}
+							nOther++
+						}
+						isFirst = nInit == 1 && nInc == 1 && nOther == 0 && len(calls) == 0
 					}
 				}
 				if sl, ok := fs[0].L.Select(); ok {
